@@ -54,6 +54,12 @@ fn cow(borrowed: bool, s: &str) -> std::borrow::Cow<'static, str> {
   if borrowed { std::borrow::Cow::Borrowed(match s { "" => "", "a" => "a", "b" => "b", _ => "c" }) } else { std::borrow::Cow::Owned(match s { "" | "a" | "b" => s.to_string(), _ => "c".to_string() }) }
 }
 
+/// Spellings of three different paths (0-3 are equal as paths, 4-5 are equal, 6 differs from all).
+const PATHS: [&str; 7] = ["a/b", "a/b/", "a//b", "a/./b", "a/c", "a/c/.", "a"];
+fn path(i: u8) -> std::path::PathBuf { std::path::PathBuf::from(PATHS[i as usize % PATHS.len()]) }
+fn path_res(r: &Result<u8, u8>) -> Result<std::path::PathBuf, std::path::PathBuf> { match r { Ok(i) => Ok(path(*i)), Err(i) => Err(path(*i)) } }
+fn hset(v: &[u8]) -> std::collections::HashSet<u8> { v.iter().cloned().collect() }
+
 fn judge_equals<O: Clone + Debug + Eq + 'static>(o1: &O, o2: &O) -> CheckResult {
   let (d, o) = both_routes(EqualsChecker, o1, o2);
   let want = o1 == o2;
@@ -92,6 +98,10 @@ pub enum Pair {
   VarP(Ck, Result<Var, Var>, Result<Var, Var>),
   EqVar(Var, Var),
   EqCow(bool, String, bool, String),
+  /// std types whose equality is not byte-wise: paths (component-wise) and hash sets (order-free).
+  EqPath(u8, u8),
+  PathP(Ck, Result<u8, u8>, Result<u8, u8>),
+  EqSet(Vec<u8>, Vec<u8>),
   /// Payload types whose Debug text and Eq disagree (the relation is defined by Eq).
   TerseP(Ck, Result<Terse, Terse>, Result<Terse, Terse>),
   LooseP(Ck, Result<Loose, Loose>, Result<Loose, Loose>),
@@ -122,6 +132,9 @@ pub fn check(p: &Pair, stats: &mut Stats) -> CheckResult {
     Pair::VarP(c, a, b) => { stats.class("enum_payload_equal_across_variants"); (judge_result(*c, a, b), true) }
     Pair::EqVar(a, b) => { stats.class("enum_payload_equal_across_variants"); (judge_equals(a, b), true) }
     Pair::EqCow(ba, a, bb, b) => { stats.class("enum_payload_equal_across_variants"); (judge_equals(&cow(*ba, a), &cow(*bb, b)), true) }
+    Pair::EqPath(a, b) => { stats.class("std_type_with_non_bytewise_equality"); (judge_equals(&path(*a), &path(*b)), true) }
+    Pair::PathP(c, a, b) => { stats.class("std_type_with_non_bytewise_equality"); (judge_result(*c, &path_res(a), &path_res(b)), true) }
+    Pair::EqSet(a, b) => { stats.class("std_type_with_non_bytewise_equality"); (judge_equals(&hset(a), &hset(b)), true) }
     Pair::TerseP(c, a, b) => { stats.class("payload_whose_debug_text_and_eq_disagree"); (judge_result(*c, a, b), true) }
     Pair::LooseP(c, a, b) => { stats.class("payload_whose_debug_text_and_eq_disagree"); (judge_result(*c, a, b), true) }
     Pair::EqTerse(a, b) => (judge_equals(a, b), a != b),
@@ -148,6 +161,9 @@ pub fn check(p: &Pair, stats: &mut Stats) -> CheckResult {
     Pair::VarP(c, a, _) => judge_result(*c, a, a),
     Pair::EqVar(a, _) => judge_equals(a, a),
     Pair::EqCow(ba, a, _, _) => judge_equals(&cow(*ba, a), &cow(!*ba, a)),
+    Pair::EqPath(a, _) => judge_equals(&path(*a), &path(*a)),
+    Pair::PathP(c, a, _) => judge_result(*c, &path_res(a), &path_res(a)),
+    Pair::EqSet(a, _) => { let mut r = a.clone(); r.reverse(); judge_equals(&hset(a), &hset(&r)) }
     Pair::TerseP(c, a, _) => judge_result(*c, a, a),
     Pair::LooseP(c, a, _) => judge_result(*c, a, a),
     Pair::EqTerse(a, _) => judge_equals(a, a),
@@ -180,6 +196,9 @@ pub fn strategy() -> impl Strategy<Value=Pair> {
   fn var() -> impl Strategy<Value=Var> { (any::<bool>(), 0u8..2).prop_map(|(v, x)| if v { Var::A(x) } else { Var::B(x) }) }
   fn tiny() -> impl Strategy<Value=String> { prop_oneof![Just(String::new()), Just("a".to_string()), Just("b".to_string())] }
   prop_oneof![
+    1 => (0u8..7, 0u8..7).prop_map(|(a, b)| Pair::EqPath(a, b)),
+    2 => (ck(), res(0u8..7, 0u8..7), res(0u8..7, 0u8..7)).prop_map(|(c, a, b)| Pair::PathP(c, a, b)),
+    1 => (proptest::collection::vec(0u8..4, 0..4), proptest::collection::vec(0u8..4, 0..4)).prop_map(|(a, b)| Pair::EqSet(a, b)),
     2 => (ck(), res(var(), var()), res(var(), var())).prop_map(|(c, a, b)| Pair::VarP(c, a, b)),
     1 => (var(), var()).prop_map(|(a, b)| Pair::EqVar(a, b)),
     1 => (any::<bool>(), tiny(), any::<bool>(), tiny()).prop_map(|(ba, a, bb, b)| Pair::EqCow(ba, a, bb, b)),
@@ -210,7 +229,7 @@ pub fn replay(path: &Path) -> Result<CheckResult, String> {
 }
 
 pub fn run(tier: Tier, seed: u64) -> i32 {
-  let rule = "all five built-in checkers through both the OutputChecker methods and the object-safe OutputCheckerObj proxy: (1) exhaustive over all 8x8 pairs of Result<u8 in 0..4, u8 in 0..4> x 5 checkers; (1b) exhaustive over Result<u8,()>, Result<(),u8>, Result<(),()> (zero-sized payload types); (2) proptest-generated pairs of Result<String,String>, Result<(u8,String),Vec<u8>>, Result<String,UnitStruct>, Result<UnitStruct,String>, Result<[u8;24],u64>, payload types whose Debug text is terser / finer than their Eq, enums (and Cow<str>) equal across variants, and Option/tuple/Vec values for EqualsChecker; oracle: check(o2, stamp(o1)) is consistent iff the documented relation holds, plus reflexivity; non-trivial = pair on which the relation differs from plain equality (or an unequal pair for EqualsChecker); distinct by value hash";
+  let rule = "all five built-in checkers through both the OutputChecker methods and the object-safe OutputCheckerObj proxy: (1) exhaustive over all 8x8 pairs of Result<u8 in 0..4, u8 in 0..4> x 5 checkers; (1b) exhaustive over Result<u8,()>, Result<(),u8>, Result<(),()> (zero-sized payload types); (2) proptest-generated pairs of Result<String,String>, Result<(u8,String),Vec<u8>>, Result<String,UnitStruct>, Result<UnitStruct,String>, Result<[u8;24],u64>, payload types whose Debug text is terser / finer than their Eq, enums (and Cow<str>) equal across variants, PathBuf spellings and HashSet, and Option/tuple/Vec values for EqualsChecker; oracle: check(o2, stamp(o1)) is consistent iff the documented relation holds, plus reflexivity; non-trivial = pair on which the relation differs from plain equality (or an unequal pair for EqualsChecker); distinct by value hash";
   let mut report = Report::new("C12", tier, seed, "exploration", rule);
   let known = Known::load("C12");
   super::prologue(&mut report, &known);
